@@ -751,6 +751,26 @@ class Body:
             return "?"
         return o["k"]["ty"]
 
+    def _lift_bool_phi(self, atom, _stack):
+        """a branch on a boolean local that is only ever assigned the constants true / false (the expansion of
+        `matches!(..)`, `a && b`, `a || b`) is replaced by the guards under which the matching constant was assigned"""
+        if atom[0] != "bool" or atom[1][0] != "phi" or len(atom[1]) < 3 or atom[1][2] is None:
+            return None
+        l = atom[1][2]
+        out = set()
+        for (bi, si, kind, s) in self.defs.get(l, []):
+            if kind != "stmt":
+                return None
+            t = self.rvalue_term(s["rv"])
+            if t[0] != "const" or t[1] not in ("0", "1", "true", "false"):
+                return None
+            if (t[1] in ("1", "true")) == atom[2]:
+                if bi in _stack:
+                    return None
+                for conj in self.guard(bi, _stack):
+                    out.add(conj)
+        return out
+
     def guard(self, b, _stack=None):
         """DNF: frozenset of frozensets of atoms under which block b executes (loop back-edges cut)"""
         if b in self._guard_cache:
@@ -773,8 +793,13 @@ class Body:
                 if a == b:
                     # self-dependence of a loop header
                     continue
+                lifted = self._lift_bool_phi(atom, _stack)
                 for conj in self.guard(a, _stack):
-                    disj.add(conj | {atom})
+                    if lifted is None:
+                        disj.add(conj | {atom})
+                    else:
+                        for c2 in lifted:
+                            disj.add(conj | c2)
             if not disj:
                 disj = {frozenset()}
             g = simplify_dnf(disj)
